@@ -36,7 +36,7 @@ pub struct C02Case {
 }
 
 pub const FAMILIES: &[(&str, u64)] =
-    &[("tiny", 2), ("tiny-hints", 1), ("medium", 3), ("conf", 6), ("conf-hints", 3), ("deep", 5), ("deep-hints", 2), ("big", 2)];
+    &[("tiny", 2), ("tiny-hints", 1), ("medium", 3), ("conf", 6), ("conf-hints", 3), ("deep", 5), ("deep-hints", 2), ("big", 2), ("many-excl", 1)];
 
 pub const EXISTS_BUDGET: u64 = 300_000;
 
@@ -77,7 +77,7 @@ impl Monitor for C02 {
         let (name, cfg) = pick_family(r, FAMILIES);
         let (name, (u, p)) = if r.chance(1, 30) { ("conflict-chain", gener::conflict_chain(r)) } else { (name, gener::generate(r, &cfg)) };
         let p = p.hard();
-        let brute = name != "big";
+        let brute = name != "big" && name != "many-excl";
         let mut variants = vec![];
         variants.push(Variant { what: "base sync".into(), u: u.clone(), p: p.clone(), opts: SolveOpts::default() });
         variants.push(Variant {
